@@ -38,14 +38,17 @@ FwdProgV(e) ==
       rep == e.reported
       simple == ~(fl.ha \/ fl.hk \/ fl.partial) /\ ~\E x \in PosIdx(oEff) : oEff[x].d
       (* with hide flags the written call passes further, unknown star arguments: the model cannot predict them *)
-      predictable == ~(fl.ha \/ fl.hk \/ fl.partial) /\ ~e.skipexec
+      predictable == ~(fl.ha \/ fl.hk \/ fl.partial) /\ ~e.skipexec /\ ~e.starfree_only
+      (* placements whose real callee is, by construction, not what anything visible says: a star parameter of the report promises *)
+      (* nothing there; only call shapes that put nothing into a star are decided by execution                                    *)
+      decidable(c) == e.starfree_only => (c.np <= Len(Posi(rep.ps)) /\ c.kw \subseteq KwPassable(rep.ps))
   IN
        Clause(predictable /\ \E c \in Calls : ExecOutcome(oEff, i, fl.n, names, fl.uva, fl.uvk, c)
                                                # (IF c \in badO THEN "outer" ELSE IF c \in badI THEN "inner" ELSE "ok"), "MODEL_ExecOutcome")
   \cup (IF rep.tag = "sig" /\ ~(e.allow_fallback /\ e.plain.tag = "sig" /\ e.plain.ps = rep.ps) THEN
-            Clause(\E c \in Calls : /\ Accepts(rep.ps, c) /\ NonColliding(c, rep.ps, <<oEff, i>>) /\ c.kw \cap names = {}
+            Clause(\E c \in Calls : /\ Accepts(rep.ps, c) /\ NonColliding(c, rep.ps, <<oEff, i>>) /\ c.kw \cap names = {} /\ decidable(c)
                                     /\ c \in bad, "C04_AcceptedCallRaisesTypeError")
-       \cup Clause(simple /\ \E c \in Calls : /\ ~Accepts(rep.ps, c) /\ NonColliding(c, rep.ps, <<oEff, i>>) /\ c.kw \cap names = {}
+       \cup Clause(simple /\ ~e.starfree_only /\ \E c \in Calls : /\ ~Accepts(rep.ps, c) /\ NonColliding(c, rep.ps, <<oEff, i>>) /\ c.kw \cap names = {}
                                               /\ c \notin bad, "C04_RejectedCallRuns")
        \cup Clause(fl.partial /\ \E c \in Calls : /\ ~Accepts(rep.ps, c) /\ NonColliding(c, rep.ps, <<oEff, i>>) /\ c.kw \cap names = {}
                                                   /\ c \notin badO
